@@ -208,7 +208,7 @@ def gen_dense(rnd, hid, mods, flags, depth):
         free = [q for q in conns if joined.get(q) != 1]
         ops = [("join", 2 if free else 0), ("eadd", 2 if len(ents) < 4 else 0), ("tadd", 2 if len(types) < 3 else 0),
                ("sub", 3 if types else 0), ("unsub", 2 if subs else 0), ("cadd", 4 if types and ents else 0),
-               ("cupd", 6 if comps else 0), ("cdel", 2 if comps else 0), ("edel", 1 if mine else 0), ("pose", 2 if mine else 0),
+               ("cupd", 6 if comps else 0), ("cdel", 2 if comps else 0), ("cmiss", 1.5 if comps and len(ents) > 1 else 0), ("edel", 1 if mine else 0), ("pose", 2 if mine else 0),
                ("custom", 1), ("action", 2 if ents and "vikja" in mods else 0), ("asset", 1 if mine and "odal" in mods else 0),
                ("list", 1 if types else 0), ("disc", 1 if len(ms) > 1 else 0), ("switch", 0.5 if len(ms) > 1 else 0), ("tick", 2),
                ("pose_del_add", 1 if mine else 0), ("visitor", 1 if [q for q in conns if q not in joined] else 0)]
@@ -254,6 +254,28 @@ def gen_dense(rnd, hid, mods, flags, depth):
             t, e = rnd.choice(sorted(comps))
             req(c, k="CompDelete", tid=t, eid=e)
             comps.discard((t, e))
+        elif op == "cmiss":
+            # near miss: a delete (or an add of the same pair right after) of a REGISTERED type on an EXISTING entity that
+            # does not carry it, while the entity carries other components and the type is in use elsewhere; half of
+            # the time the entity is removed right afterwards (by its owner's request or its owner's departure): the
+            # cascade must still take ALL of its components (seeded m12-C12: a per-entity index dropped by the miss)
+            cand = [(t, e) for t in range(1, len(types) + 1) for e in sorted(ents) if (t, e) not in comps
+                    and any(k[1] == e for k in comps)] or \
+                   [(t, e) for t in range(1, len(types) + 1) for e in sorted(ents) if (t, e) not in comps]
+            if cand:
+                t, e = rnd.choice(cand)
+                req(c, k="CompDelete", tid=t, eid=e)
+                o, pers = ents[e]
+                y = rnd.random()
+                if y < 0.35 and o in ms:
+                    req(o, k="EntityDelete", eid=e)
+                    del ents[e]
+                    for k in list(comps):
+                        if k[1] == e:
+                            comps.discard(k)
+                elif y < 0.5 and o in ms and len(ms) > 1 and not pers:
+                    steps.append({"step": "Disc", "conn": o, "cause": "close"})
+                    leave(o)
         elif op == "edel":
             e = rnd.choice(mine)
             req(c, k="EntityDelete", eid=e)
